@@ -1114,4 +1114,771 @@ theorem bufferFull_shape (dec : Bytes → Bool) (c : Chan) (h : ChanWF c)
       · exact Or.inl hinc
       · exact Or.inr ⟨a, b⟩
 
+theorem shiftIfShort_space (b : Buffer) (len : Nat) (h : b.WF) :
+    (len ≤ b.availSpace ∧ Chan.shiftIfShort b len = b) ∨
+    (b.availSpace < len ∧ (Chan.shiftIfShort b len).availSpace = b.cap - b.data.length) := by
+  unfold Chan.shiftIfShort
+  split
+  · next hgt => exact Or.inr ⟨hgt, shift_space b h⟩
+  · next hle => exact Or.inl ⟨Nat.le_of_not_lt hle, rfl⟩
+
+/-- the refusal test of `write_delimited_message`, in terms of pending bytes -/
+theorem write_refusal_cond (c : Chan) (payload : Bytes) (h : ChanWF c) (hcap : c.back.cap ≤ c.max) :
+    let b0 := Chan.shiftIfShort c.back (payload.length + delim)
+    (payload.length + delim > b0.availSpace ∧ payload.length + delim - b0.availSpace + b0.cap > c.max) ↔
+      c.max < c.back.data.length + (payload.length + delim) := by
+  obtain ⟨h1, h2, h3⟩ := h.2
+  obtain ⟨_, _, h0c⟩ := shiftIfShort_spec c.back (payload.length + delim) h.2
+  simp only []
+  rcases shiftIfShort_space c.back (payload.length + delim) h.2 with ⟨hle, heq⟩ | ⟨hlt, hsp⟩
+  · rw [heq]
+    simp only [Buffer.availSpace] at *
+    constructor
+    · intro ⟨a, _⟩; omega
+    · intro hh; omega
+  · rw [hsp, h0c]
+    simp only [Buffer.availSpace] at *
+    constructor
+    · intro ⟨a, b⟩; omega
+    · intro hh; constructor <;> omega
+
+theorem writeMessage_snd (c : Chan) (p : Bytes) : (c.writeMessage p).2 = (c.writeDelimited p).2 := by
+  unfold Chan.writeMessage
+  rcases c.writeDelimited p with ⟨c1, r⟩
+  cases r with
+  | error e => rfl
+  | ok u => cases u; rfl
+
+theorem writeMessage_iff (c : Chan) (payload : Bytes) (h : ChanWF c) (hcap : c.back.cap ≤ c.max) :
+    ((c.writeMessage payload).2 = .ok () ↔ c.back.data.length + (payload.length + delim) ≤ c.max) ∧
+    ((c.writeMessage payload).2 = .error (.tooLarge (payload.length + delim)) ↔
+      c.max < c.back.data.length + (payload.length + delim)) := by
+  have hcond := write_refusal_cond c payload h hcap
+  simp only [] at hcond
+  obtain ⟨_, _, hd⟩ := writeMessage_spec c payload h
+  have key : (c.writeMessage payload).2 = .error (.tooLarge (payload.length + delim)) ↔
+      c.max < c.back.data.length + (payload.length + delim) := by
+    rw [← hcond, writeMessage_snd]
+    constructor
+    · intro hh
+      apply Classical.byContradiction
+      intro hc
+      unfold Chan.writeDelimited at hh
+      simp only [] at hh
+      rw [if_neg hc] at hh
+      split at hh <;> simp at hh
+    · intro hc
+      unfold Chan.writeDelimited
+      simp only []
+      rw [if_pos hc]
+  refine ⟨?_, key⟩
+  constructor
+  · intro hok
+    apply Nat.le_of_not_lt
+    intro hlt
+    rw [key.mpr hlt] at hok; cases hok
+  · intro hle
+    rcases hd with ⟨a, _⟩ | ⟨a, _⟩
+    · exact a
+    · exact absurd (key.mp a) (Nat.not_lt.mpr hle)
+
+/-- one round of a fair schedule: the kernel accepts everything the writer has
+    pending, the peer hands everything over (up to the queue bound), the reader
+    is told it is readable and calls `read_message` at least once (`k + 1` times) -/
+def fairRoundOps (k : Nat) : List Op :=
+  [.flush [usizeMax], .deliver rqCap, .readable] ++ List.replicate (k + 1) .read
+
+/-- explicit fairness predicate: the schedule is `rounds` such rounds in a row -/
+def FairSchedule (sched : List Op) (rounds : Nat) : Prop :=
+  ∃ ks : List Nat, ks.length = rounds ∧ sched = (ks.map fairRoundOps).flatten
+
+/-- what the fair-delivery argument needs of a state -/
+structure Live (dec : Bytes → Bool) (s : Sys) (pend : List Bytes) : Prop where
+  fifo : Fifo dec s pend
+  fits : ∀ p ∈ pend, p.length + delim ≤ s.r.max
+  armed : s.w.back.data ≠ [] → s.w.inW = true
+  isOpen : s.closed = false
+  small : s.w.back.data.length ≤ usizeMax
+
+theorem step_eq_stepBase (dec : Bytes → Bool) (s : Sys) (op : Op) (h : ∀ n, op ≠ .drain n) :
+    step dec s op = stepBase dec s op := by
+  cases op <;> first | rfl | exact absurd rfl (h _)
+
+/-- flushing with a schedule that accepts everything empties the back buffer -/
+theorem writableLoop_all (c : Chan) (k : Nat) (acc : Bytes) (count : Nat) (h : ChanWF c)
+    (hk : c.back.data.length ≤ k) :
+    (c.writableLoop [k] acc count).1.back.data = [] := by
+  obtain ⟨h1, h2, h3⟩ := h.2
+  unfold Chan.writableLoop
+  split
+  · next h0 =>
+    rw [tryShrinkBack_data]
+    simp only [Buffer.availData] at h0
+    show c.back.data = []
+    exact List.eq_nil_of_length_eq_zero (by omega)
+  · next h0 =>
+    simp only []
+    split
+    · next hk0 =>
+      simp only [Buffer.availData] at h0
+      omega
+    · next hk0 =>
+      have hn : min k c.back.availData = c.back.data.length := by
+        simp only [Buffer.availData]; omega
+      rw [hn]
+      unfold Chan.writableLoop
+      have hcons := consume_data c.back c.back.data.length h.2
+      have hwf := wf_consume c.back c.back.data.length h.2
+      have hd0 : (c.back.consume c.back.data.length).data = [] := by rw [hcons]; simp
+      have ha0 : (c.back.consume c.back.data.length).availData = 0 := by
+        obtain ⟨a, b, c'⟩ := hwf
+        simp only [Buffer.availData]; rw [hd0] at c'; simp at c'; omega
+      simp only [ha0, if_true]
+      rw [tryShrinkBack_data]
+      exact hd0
+
+theorem fifo_pend_eq {dec : Bytes → Bool} {s : Sys} {op : Op} {pend pend' : List Bytes}
+    (h : pend ++ writtenOf op (stepBase dec s op).2 = deliveredOf (stepBase dec s op).2 ++ pend')
+    (hw : writtenOf op (stepBase dec s op).2 = []) (hd : deliveredOf (stepBase dec s op).2 = []) :
+    pend' = pend := by
+  rw [hw, hd] at h; simpa using h.symm
+
+/-- round step 1: the kernel accepts everything -/
+theorem live_flush (dec : Bytes → Bool) (s : Sys) (pend : List Bytes) (h : Live dec s pend) :
+    let s1 := (stepBase dec s (.flush [usizeMax])).1
+    Live dec s1 pend ∧ s1.w.back.data = [] ∧ s1.pendingBytes = s.pendingBytes ∧ s1.r = s.r := by
+  have hwfw : ChanWF { s.w with rdW := true } := wf_flag h.fifo.wf.1 rfl rfl
+  obtain ⟨pend', hf, he⟩ := stepBase_fifo dec s (.flush [usizeMax]) pend h.fifo rfl (by intro p hp; cases hp)
+  obtain ⟨_, _, hd⟩ := writable_spec { s.w with rdW := true } [usizeMax] hwfw
+  have hempty : (Chan.writable { s.w with rdW := true } [usizeMax]).1.back.data = [] := by
+    unfold Chan.writable
+    split
+    · next hc =>
+      -- not armed: nothing is pending
+      have : s.w.inW = false := by simpa using hc
+      show s.w.back.data = []
+      apply Classical.byContradiction
+      intro hne; rw [h.armed hne] at this; cases this
+    · exact writableLoop_all _ usizeMax [] 0 hwfw h.small
+  simp only [stepBase] at hf he ⊢
+  rcases hr : Chan.writable { s.w with rdW := true } [usizeMax] with ⟨w1, acc, r1⟩
+  rw [hr] at hf he hd hempty
+  simp only at hd hempty
+  have hacc : acc = s.w.back.data := by rw [← hd, hempty, List.append_nil]
+  rcases r1 with e | n
+  all_goals
+    simp only [writtenOf, deliveredOf, List.append_nil, List.nil_append] at he hf ⊢
+    subst he
+    refine ⟨⟨hf, h.fits, ?_, h.isOpen, ?_⟩, hempty, ?_, trivial⟩
+    · intro hne; exact absurd hempty hne
+    · simp [hempty]
+    · simp only [Sys.pendingBytes, hempty, hacc, List.length_append, List.length_nil]; omega
+
+/-- round step 2: the peer hands over everything (up to the queue bound) -/
+theorem live_deliver (dec : Bytes → Bool) (s : Sys) (pend : List Bytes) (h : Live dec s pend)
+    (hb : s.w.back.data = []) :
+    let s2 := (stepBase dec s (.deliver rqCap)).1
+    Live dec s2 pend ∧ s2.pendingBytes = s.pendingBytes ∧ s2.r = s.r ∧ s2.w = s.w ∧
+    (0 < s2.pendingBytes → s2.rq ≠ []) := by
+  obtain ⟨pend', hf, he⟩ := stepBase_fifo dec s (.deliver rqCap) pend h.fifo rfl (by intro p hp; cases hp)
+  simp only [stepBase, writtenOf, deliveredOf, List.append_nil, List.nil_append] at hf he ⊢
+  subst he
+  have hop := h.isOpen
+  refine ⟨⟨hf, h.fits, h.armed, h.isOpen, h.small⟩, ?_, trivial, trivial, ?_⟩
+  · simp only [Sys.pendingBytes, hop, List.length_append, List.length_drop, List.length_take]
+    simp only [Bool.false_eq_true, if_false]
+    omega
+  · simp only [Sys.pendingBytes, hop, hb, List.length_nil, Bool.false_eq_true, if_false]
+    intro hpos
+    cases hrq : s.rq with
+    | cons a t => simp
+    | nil =>
+      simp only [hrq, List.length_nil, List.nil_append, List.length_drop, List.length_take] at hpos ⊢
+      have hw : 0 < s.wire.length := by omega
+      intro hnil
+      have := congrArg List.length hnil
+      simp only [List.length_take, List.length_nil, rqCap] at this
+      omega
+
+theorem readableLoop_rq_le (closed : Bool) (fuel : Nat) (c : Chan) (rq : Bytes) (count : Nat) :
+    (c.readableLoop closed fuel rq count).2.1.length ≤ rq.length := by
+  fun_induction Chan.readableLoop closed fuel c rq count <;> simp_all <;> omega
+
+theorem reclaim_full (c : Chan) (h : ChanWF c) (hs : c.reclaimIfFull.front.availSpace = 0) :
+    c.reclaimIfFull.front.data.length = c.reclaimIfFull.front.cap := by
+  have hw := ((reclaimIfFull_spec c).1.wf h).1
+  obtain ⟨h1, h2, h3⟩ := hw
+  unfold Chan.reclaimIfFull at hs ⊢
+  split
+  · next h0 =>
+    rw [if_pos h0] at hs
+    have := shift_space c.front h.1
+    have hc := shift_cap c.front
+    have hd := shift_data c.front
+    change c.front.shift.availSpace = 0 at hs
+    show c.front.shift.data.length = c.front.shift.cap
+    obtain ⟨a, b, d⟩ := h.1
+    rw [hd, hc]; omega
+  · next h0 =>
+    rw [if_neg h0] at hs; exact absurd hs h0
+
+/-- `readable()` on a non-empty socket either pulls at least one byte or stops
+    because the front buffer already holds a full ceiling of pending data -/
+theorem readableLoop_progress (fuel : Nat) (c : Chan) (rq : Bytes) (count : Nat) (hwf : ChanWF c)
+    (hrq : rq ≠ []) (hfull : c.front.availSpace = 0 → c.front.data.length = c.front.cap) :
+    (c.readableLoop false (fuel + 1) rq count).2.1.length < rq.length ∨
+    (c.max ≤ c.front.data.length ∧
+      (c.readableLoop false (fuel + 1) rq count).1.front.data = c.front.data) := by
+  unfold Chan.readableLoop
+  split
+  · next hc =>
+    right
+    have := (growSize_none c c.front.cap).mp hc.2
+    rw [hfull hc.1]
+    exact ⟨this, rfl⟩
+  · next hc =>
+    left
+    have hne : rq.isEmpty = false := by simpa using hrq
+    simp only [hne, Bool.false_eq_true, if_false]
+    have hsp : 0 < c.growFrontIfFull.front.availSpace := by
+      unfold Chan.growFrontIfFull
+      split
+      · next h0 =>
+        cases hg : c.growSize c.front.cap with
+        | none => exact absurd ⟨h0, by simp [hg]⟩ hc
+        | some n =>
+          have := growSize_some c _ _ hg
+          obtain ⟨a, b, d⟩ := hwf.1
+          simp only [Buffer.availSpace, Buffer.grow] at h0 ⊢
+          split <;> simp <;> omega
+      · next h0 => omega
+    have hlen : 0 < rq.length := List.length_pos_iff.mpr hrq
+    have hn : min c.growFrontIfFull.front.availSpace rq.length ≠ 0 := by omega
+    simp only [hn, if_false]
+    have := readableLoop_rq_le false fuel
+      (Chan.reclaimIfFull { c.growFrontIfFull with front := c.growFrontIfFull.front.fill (rq.take (min c.growFrontIfFull.front.availSpace rq.length)) })
+      (rq.drop (min c.growFrontIfFull.front.availSpace rq.length)) (count + min c.growFrontIfFull.front.availSpace rq.length)
+    simp only [List.length_drop] at this
+    omega
+
+/-- round step 3: the reader is told it is readable -/
+theorem live_readable (dec : Bytes → Bool) (s : Sys) (pend : List Bytes) (h : Live dec s pend) :
+    let s3 := (stepBase dec s .readable).1
+    Live dec s3 pend ∧ s3.w = s.w ∧ s3.pendingBytes ≤ s.pendingBytes ∧ s3.r.max = s.r.max ∧
+    (s.r.inR = true → s.rq ≠ [] →
+      s3.pendingBytes < s.pendingBytes ∨ s3.r.max ≤ s3.r.front.data.length) := by
+  obtain ⟨pend', hf, he⟩ := stepBase_fifo dec s .readable pend h.fifo rfl (by intro p hp; cases hp)
+  have hwfr : ChanWF { s.r with rdR := true } := wf_flag h.fifo.wf.2 rfl rfl
+  obtain ⟨hstep, _, _⟩ := readable_spec { s.r with rdR := true } s.rq s.closed hwfr
+  have hmax : (Chan.readable { s.r with rdR := true } s.rq s.closed).1.max = s.r.max := hstep.max_eq
+  have hlen : (Chan.readable { s.r with rdR := true } s.rq s.closed).2.1.length ≤ s.rq.length := by
+    unfold Chan.readable; split
+    · exact Nat.le_refl _
+    · exact readableLoop_rq_le ..
+  have hprog : s.r.inR = true → s.rq ≠ [] →
+      (Chan.readable { s.r with rdR := true } s.rq s.closed).2.1.length < s.rq.length ∨
+      s.r.max ≤ (Chan.readable { s.r with rdR := true } s.rq s.closed).1.front.data.length := by
+    intro hin hrq
+    rw [h.isOpen]
+    unfold Chan.readable
+    split
+    · next hc => exfalso; simp [hin] at hc
+    · have hwf0 := (reclaimIfFull_spec { s.r with rdR := true }).1.wf hwfr
+      rcases readableLoop_progress (s.rq.length + 1) (Chan.reclaimIfFull { s.r with rdR := true }) s.rq 0 hwf0 hrq
+        (reclaim_full _ hwfr) with hp | ⟨hp1, hp2⟩
+      · exact Or.inl hp
+      · right
+        have hm : (Chan.reclaimIfFull { s.r with rdR := true }).max = s.r.max := (reclaimIfFull_spec _).1.max_eq
+        rw [hm] at hp1
+        show s.r.max ≤ (Chan.readableLoop false (s.rq.length + 1 + 1) (Chan.reclaimIfFull { s.r with rdR := true }) s.rq 0).1.front.data.length
+        rw [hp2]; exact hp1
+  simp only [stepBase] at hf he ⊢
+  rcases hr : Chan.readable { s.r with rdR := true } s.rq s.closed with ⟨r1, rq1, o⟩
+  rw [hr] at hf he hmax hlen hprog
+  simp only at hmax hlen hprog
+  rcases o with e | n
+  all_goals
+    simp only [writtenOf, deliveredOf, List.append_nil, List.nil_append] at he hf ⊢
+    subst he
+    refine ⟨⟨hf, ?_, h.armed, h.isOpen, h.small⟩, trivial, ?_, hmax, ?_⟩
+    · intro p hp; rw [hmax]; exact h.fits p hp
+    · simp only [Sys.pendingBytes]; omega
+    · intro hin hrq
+      rcases hprog hin hrq with hp | hp
+      · left; simp only [Sys.pendingBytes]; omega
+      · right; rw [hmax]; exact hp
+
+theorem readMessage_inR_ok (dec : Bytes → Bool) (c : Chan) (m : Bytes)
+    (h : (c.readMessage dec).2 = .ok m) : (c.readMessage dec).1.inR = true := by
+  unfold Chan.readMessage at h ⊢
+  rcases hx : c.tryRead dec with ⟨c1, r⟩
+  rw [hx] at h
+  rcases r with e | (_ | m')
+  · simp at h
+  · simp at h
+  · rfl
+
+theorem readMessage_of_none (dec : Bytes → Bool) (c c1 : Chan)
+    (h : c.tryRead dec = (c1, .ok none)) :
+    (c.readMessage dec).2 = .error .nothingRead ∧ (c.readMessage dec).1.inR = true := by
+  unfold Chan.readMessage; rw [h]; exact ⟨rfl, rfl⟩
+
+/-- on a well-formed stream whose frames fit the ceiling, `read_message`
+    returns the oldest message exactly when its frame is completely buffered,
+    says `NothingRead` otherwise, and leaves the READABLE interest armed -/
+theorem read_live (dec : Bytes → Bool) (c : Chan) (T p : Bytes) (rest : List Bytes) (h : ChanWF c)
+    (hs : c.front.data ++ T = flat (p :: rest)) (hg : Good dec p) (hfit : p.length + delim ≤ c.max) :
+    (c.readMessage dec).1.inR = true ∧
+    (p.length + delim ≤ c.front.data.length → (c.readMessage dec).2 = .ok p) ∧
+    (c.front.data.length < p.length + delim → (c.readMessage dec).2 = .error .nothingRead) := by
+  rw [flat_cons] at hs
+  by_cases hc : p.length + delim ≤ c.front.data.length
+  · obtain ⟨ht, hd⟩ := head_complete _ _ _ _ hs hc
+    have hdata : c.front.data = frame p ++ c.front.data.drop (p.length + delim) := by
+      rw [← ht, List.take_append_drop]
+    have hok := (read_complete dec c p _ h hdata hg hfit).1
+    exact ⟨readMessage_inR_ok dec c p hok, fun _ => hok, fun hlt => by omega⟩
+  · have hlt : c.front.data.length < p.length + delim := Nat.lt_of_not_le hc
+    obtain ⟨_, _, _, hr, hcase⟩ := readMessage_cases dec c h
+    have hlen8 : delim ≤ c.front.data.length → decodeLE (c.front.data.take delim) = p.length + delim :=
+      fun h8 => head_len' _ _ _ _ hs h8 hg.2
+    generalize hx : c.tryRead dec = x at hcase hr
+    cases hcase with
+    | msg c' len h8 hlen _ _ hhi _ _ => rw [hlen8 h8] at hlen; omega
+    | under c' len h8 hlen hu _ _ => rw [hlen8 h8] at hlen; omega
+    | tooLarge c' len h8 hlen hgt _ => rw [hlen8 h8] at hlen; omega
+    | invalid c' len h8 hlen _ _ hhi _ _ => rw [hlen8 h8] at hlen; omega
+    | incomplete c' r hinc hr' _ =>
+      rcases hr' with hr' | ⟨_, hfull⟩
+      · subst hr'
+        obtain ⟨a, b⟩ := readMessage_of_none dec c c' hx
+        exact ⟨b, fun hle => by omega, fun _ => a⟩
+      · omega
+
+/-- round step 4: one `read_message` -/
+theorem live_read (dec : Bytes → Bool) (s : Sys) (pend : List Bytes) (h : Live dec s pend) :
+    ∃ pend', Live dec (stepBase dec s .read).1 pend' ∧
+      pend = deliveredOf (stepBase dec s .read).2 ++ pend' ∧
+      (stepBase dec s .read).1.pendingBytes = s.pendingBytes ∧
+      (stepBase dec s .read).1.r.max = s.r.max ∧
+      (pend ≠ [] → (stepBase dec s .read).1.r.inR = true) ∧
+      (∀ p rest, pend = p :: rest → p.length + delim ≤ s.r.front.data.length →
+        deliveredOf (stepBase dec s .read).2 = [p]) := by
+  obtain ⟨pend', hf, he⟩ := stepBase_fifo dec s .read pend h.fifo rfl (by intro p hp; cases hp)
+  obtain ⟨hstep, _, _⟩ := readMessage_cases dec s.r h.fifo.wf.2
+  have hmax : (s.r.readMessage dec).1.max = s.r.max := hstep.max_eq
+  have hst := h.fifo.stream
+  unfold Sys.stream at hst
+  have hlive : ∀ p rest, pend = p :: rest →
+      (s.r.readMessage dec).1.inR = true ∧
+      (p.length + delim ≤ s.r.front.data.length → (s.r.readMessage dec).2 = .ok p) := by
+    intro p rest hp
+    subst hp
+    obtain ⟨a, b, _⟩ := read_live dec s.r _ p rest h.fifo.wf.2 hst
+      (h.fifo.good p (List.mem_cons_self ..)) (h.fits p (List.mem_cons_self ..))
+    exact ⟨a, b⟩
+  simp only [stepBase] at hf he ⊢
+  rcases hr : s.r.readMessage dec with ⟨r1, o⟩
+  rw [hr] at hf he hmax hlive
+  simp only at hmax hlive
+  have hsub : ∀ q ∈ pend', q ∈ pend := by
+    intro q hq
+    rcases o with e | m <;> simp only [writtenOf, deliveredOf, List.append_nil, List.nil_append] at he
+    · rw [he]; exact hq
+    · rw [he]; exact List.mem_cons_of_mem _ hq
+  rcases o with e | m
+  · simp only [writtenOf, deliveredOf, List.append_nil, List.nil_append] at he ⊢
+    refine ⟨pend', ⟨hf, ?_, h.armed, h.isOpen, h.small⟩, he, rfl, hmax, ?_, ?_⟩
+    · intro q hq; rw [hmax]; exact h.fits q (hsub q hq)
+    · intro hne
+      cases hp : pend with
+      | nil => exact absurd hp hne
+      | cons p rest => exact (hlive p rest hp).1
+    · intro p rest hp hc
+      have := (hlive p rest hp).2 hc
+      cases this
+  · simp only [writtenOf, deliveredOf, List.append_nil] at he ⊢
+    refine ⟨pend', ⟨hf, ?_, h.armed, h.isOpen, h.small⟩, he, rfl, hmax, ?_, ?_⟩
+    · intro q hq; rw [hmax]; exact h.fits q (hsub q hq)
+    · intro hne
+      cases hp : pend with
+      | nil => exact absurd hp hne
+      | cons p rest => exact (hlive p rest hp).1
+    · intro p rest hp hc
+      have := (hlive p rest hp).2 hc
+      cases this; rfl
+
+theorem run_append (dec : Bytes → Bool) (s : Sys) (a b : List Op) :
+    run dec s (a ++ b) =
+      ((run dec (run dec s a).1 b).1, (run dec s a).2 ++ (run dec (run dec s a).1 b).2) := by
+  induction a generalizing s with
+  | nil => simp [run]
+  | cons op ops ih => simp only [List.cons_append, run, ih, List.cons_append]
+
+theorem delivered_append (a b : List Out) : delivered (a ++ b) = delivered a ++ delivered b := by
+  induction a with
+  | nil => simp [delivered]
+  | cons o os ih => simp [delivered, ih]
+
+theorem run_cons (dec : Bytes → Bool) (s : Sys) (op : Op) (ops : List Op) :
+    run dec s (op :: ops) =
+      ((run dec (step dec s op).1 ops).1, (step dec s op).2 :: (run dec (step dec s op).1 ops).2) := rfl
+
+/-- `n` consecutive `read_message` calls -/
+theorem live_reads (dec : Bytes → Bool) (n : Nat) (s : Sys) (pend : List Bytes) (h : Live dec s pend) :
+    ∃ pend', Live dec (run dec s (List.replicate n .read)).1 pend' ∧
+      pend = delivered (run dec s (List.replicate n .read)).2 ++ pend' ∧
+      (run dec s (List.replicate n .read)).1.pendingBytes = s.pendingBytes ∧
+      (0 < n → pend' = [] ∨ (run dec s (List.replicate n .read)).1.r.inR = true) ∧
+      (0 < n → ∀ p rest, pend = p :: rest → p.length + delim ≤ s.r.front.data.length →
+        pend'.length < pend.length) := by
+  induction n generalizing s pend with
+  | zero => exact ⟨pend, by simpa [run] using h, by simp [run, delivered], rfl, by simp, by simp⟩
+  | succ n ih =>
+    obtain ⟨p1, l1, e1, b1, _, i1, d1⟩ := live_read dec s pend h
+    obtain ⟨p2, l2, e2, b2, i2, _⟩ := ih (stepBase dec s .read).1 p1 l1
+    have hstep : step dec s .read = stepBase dec s .read := rfl
+    simp only [List.replicate_succ, run_cons, hstep, delivered]
+    refine ⟨p2, l2, ?_, ?_, ?_, ?_⟩
+    · rw [List.append_assoc, ← e2]; exact e1
+    · rw [b2, b1]
+    · intro _
+      cases n with
+      | zero =>
+        simp only [List.replicate_zero, run] at l2 e2 ⊢
+        simp only [delivered, List.nil_append] at e2
+        subst e2
+        by_cases hp : pend = []
+        · left
+          subst hp
+          have : deliveredOf (stepBase dec s Op.read).2 ++ p1 = [] := e1.symm
+          exact (List.append_eq_nil_iff.mp this).2
+        · right; exact i1 hp
+      | succ m => exact i2 (Nat.succ_pos _)
+    · intro _ p rest hp hc
+      have hd := d1 p rest hp hc
+      have hl1 : p1.length < pend.length := by
+        have := congrArg List.length e1
+        rw [hd] at this; simp at this; omega
+      have hl2 : p2.length ≤ p1.length := by
+        have := congrArg List.length e2
+        simp at this; omega
+      omega
+
+theorem flat_head_len (p : Bytes) (rest : List Bytes) : p.length + delim ≤ (flat (p :: rest)).length := by
+  rw [flat_cons, List.length_append, frame_length]; omega
+
+/-- one fair round: nothing is lost or reordered, the work left never grows, the
+    READABLE interest is armed afterwards, and if it was armed before, the work
+    left (messages outstanding + bytes not yet in the reader's buffer) shrinks -/
+theorem live_round (dec : Bytes → Bool) (k : Nat) (s : Sys) (pend : List Bytes) (h : Live dec s pend) :
+    ∃ pend', Live dec (run dec s (fairRoundOps k)).1 pend' ∧
+      pend = delivered (run dec s (fairRoundOps k)).2 ++ pend' ∧
+      (run dec s (fairRoundOps k)).1.pendingBytes ≤ s.pendingBytes ∧
+      (pend' = [] ∨ (run dec s (fairRoundOps k)).1.r.inR = true) ∧
+      (s.r.inR = true → pend ≠ [] →
+        pend'.length + (run dec s (fairRoundOps k)).1.pendingBytes < pend.length + s.pendingBytes) := by
+  obtain ⟨l1, hb1, hp1, hr1⟩ := live_flush dec s pend h
+  obtain ⟨l2, hp2, hr2, hw2, hq2⟩ := live_deliver dec _ pend l1 hb1
+  obtain ⟨l3, hw3, hp3, hm3, hprog⟩ := live_readable dec _ pend l2
+  obtain ⟨p4, l4, e4, hp4, hq4, hd4⟩ := live_reads dec (k + 1) _ pend l3
+  have e1 : step dec s (.flush [usizeMax]) = stepBase dec s (.flush [usizeMax]) := rfl
+  have e2 : ∀ x, step dec x (.deliver rqCap) = stepBase dec x (.deliver rqCap) := fun _ => rfl
+  have e3 : ∀ x, step dec x .readable = stepBase dec x .readable := fun _ => rfl
+  have hd1 : deliveredOf (stepBase dec s (.flush [usizeMax])).2 = [] := by
+    simp only [stepBase]; split <;> rfl
+  have hd2 : ∀ x, deliveredOf (stepBase dec x (.deliver rqCap)).2 = [] := fun _ => rfl
+  have hd3 : ∀ x, deliveredOf (stepBase dec x .readable).2 = [] := by
+    intro x; simp only [stepBase]; split <;> rfl
+  simp only [fairRoundOps, List.cons_append, List.nil_append, run_cons, e1, e2, e3, delivered, hd1, hd2, hd3]
+  refine ⟨p4, l4, e4, by omega, hq4 (Nat.succ_pos _), ?_⟩
+  intro hin hne
+  have hlen4 : p4.length ≤ pend.length := by
+    have := congrArg List.length e4; simp at this; omega
+  cases hpd : pend with
+  | nil => exact absurd hpd hne
+  | cons p rest =>
+    have hfit3 : p.length + delim ≤
+        (stepBase dec (stepBase dec (stepBase dec s (.flush [usizeMax])).1 (.deliver rqCap)).1 .readable).1.r.max :=
+      l3.fits p (by rw [hpd]; exact List.mem_cons_self ..)
+    have hshort : ∀ (hc : p.length + delim ≤
+        (stepBase dec (stepBase dec (stepBase dec s (.flush [usizeMax])).1 (.deliver rqCap)).1 .readable).1.r.front.data.length),
+        p4.length < pend.length := fun hc => hd4 (Nat.succ_pos _) p rest hpd hc
+    rw [← hpd]
+    by_cases hz : (stepBase dec (stepBase dec s (.flush [usizeMax])).1 (.deliver rqCap)).1.pendingBytes = 0
+    · -- everything is already in the reader's buffer: the head frame is complete
+      have hz3 : (stepBase dec (stepBase dec (stepBase dec s (.flush [usizeMax])).1 (.deliver rqCap)).1 .readable).1.pendingBytes = 0 := by omega
+      have hst := l3.fifo.stream
+      simp only [Sys.stream] at hst
+      simp only [Sys.pendingBytes] at hz3
+      have a1 := List.eq_nil_of_length_eq_zero (l := (stepBase dec (stepBase dec (stepBase dec s (.flush [usizeMax])).1 (.deliver rqCap)).1 .readable).1.rq) (by omega)
+      have a2 := List.eq_nil_of_length_eq_zero (l := (stepBase dec (stepBase dec (stepBase dec s (.flush [usizeMax])).1 (.deliver rqCap)).1 .readable).1.wire) (by omega)
+      have a3 := List.eq_nil_of_length_eq_zero (l := (stepBase dec (stepBase dec (stepBase dec s (.flush [usizeMax])).1 (.deliver rqCap)).1 .readable).1.w.back.data) (by omega)
+      rw [a1, a2, a3, List.append_nil, List.append_nil, List.append_nil, hpd] at hst
+      have := hshort (by rw [hst]; exact flat_head_len p rest)
+      omega
+    · have hpos : 0 < (stepBase dec (stepBase dec s (.flush [usizeMax])).1 (.deliver rqCap)).1.pendingBytes := Nat.pos_of_ne_zero hz
+      have hin2 : (stepBase dec (stepBase dec s (.flush [usizeMax])).1 (.deliver rqCap)).1.r.inR = true := by
+        rw [hr2, hr1]; exact hin
+      rcases hprog hin2 (hq2 hpos) with hlt | hfull
+      · omega
+      · have := hshort (by omega)
+        omega
+
+/-- `rounds` fair rounds: FIFO is kept and, once the number of rounds covers the
+    work left (one extra round if the READABLE interest was not armed), every
+    outstanding message has been returned -/
+theorem live_rounds (dec : Bytes → Bool) (ks : List Nat) (s : Sys) (pend : List Bytes)
+    (h : Live dec s pend) :
+    ∃ pend', Live dec (run dec s (ks.map fairRoundOps).flatten).1 pend' ∧
+      pend = delivered (run dec s (ks.map fairRoundOps).flatten).2 ++ pend' ∧
+      ((pend = [] ∨ s.r.inR = true) → pend.length + s.pendingBytes ≤ ks.length → pend' = []) ∧
+      (pend.length + s.pendingBytes + 1 ≤ ks.length → pend' = []) := by
+  induction ks generalizing s pend with
+  | nil =>
+    refine ⟨pend, by simpa [run] using h, by simp [run, delivered], ?_, ?_⟩
+    · intro _ hle
+      simp only [List.length_nil] at hle
+      exact List.eq_nil_of_length_eq_zero (by omega)
+    · intro hle; simp at hle
+  | cons k ks ih =>
+    obtain ⟨p1, l1, e1, hb1, hq1, hs1⟩ := live_round dec k s pend h
+    obtain ⟨p2, l2, e2, ha2, _⟩ := ih (run dec s (fairRoundOps k)).1 p1 l1
+    simp only [List.map_cons, List.flatten_cons, run_append, delivered_append]
+    have hlen1 : p1.length ≤ pend.length := by
+      have := congrArg List.length e1; simp at this; omega
+    have key : pend.length + s.pendingBytes ≤ ks.length → p2 = [] := by
+      intro hle
+      exact ha2 hq1 (by omega)
+    refine ⟨p2, l2, by rw [List.append_assoc, ← e2]; exact e1, ?_, ?_⟩
+    · intro hq hle
+      simp only [List.length_cons] at hle
+      by_cases hp : pend = []
+      · subst hp
+        have hp1 : p1 = [] := (List.append_eq_nil_iff.mp e1.symm).2
+        subst hp1
+        exact (List.append_eq_nil_iff.mp e2.symm).2
+      · have hin : s.r.inR = true := by
+          rcases hq with hq | hq
+          · exact absurd hq hp
+          · exact hq
+        have := hs1 hin hp
+        exact ha2 hq1 (by omega)
+    · intro hle
+      simp only [List.length_cons] at hle
+      exact key (by omega)
+
+/-- writer armed while bytes are pending, peer not hung up -/
+def WOk (s : Sys) : Prop := (s.w.back.data ≠ [] → s.w.inW = true) ∧ s.closed = false
+
+theorem writableLoop_armed (sched : List Nat) (c : Chan) (acc : Bytes) (count : Nat)
+    (h : ChanWF c) (hin : c.inW = true) :
+    (c.writableLoop sched acc count).1.back.data ≠ [] → (c.writableLoop sched acc count).1.inW = true := by
+  fun_induction Chan.writableLoop sched c acc count
+  · next c acc count h0 =>
+    intro hne
+    exfalso; apply hne
+    rw [tryShrinkBack_data]
+    show c.back.data = []
+    obtain ⟨a, b, d⟩ := h.2
+    simp only [Buffer.availData] at h0
+    exact List.eq_nil_of_length_eq_zero (by omega)
+  · intro _; exact hin
+  · intro _; exact hin
+  · next ih => exact ih ⟨h.1, wf_consume _ _ h.2⟩ hin
+
+theorem writeDelimited_inW (c : Chan) (p : Bytes) : (c.writeDelimited p).1.inW = c.inW := by
+  unfold Chan.writeDelimited
+  simp only []
+  split
+  · rfl
+  · split <;> rfl
+
+theorem writeMessage_inW_err (c : Chan) (p : Bytes) (h : (c.writeMessage p).2 ≠ .ok ()) :
+    (c.writeMessage p).1.inW = c.inW := by
+  have hd := writeDelimited_inW c p
+  unfold Chan.writeMessage at h ⊢
+  rcases hx : c.writeDelimited p with ⟨c1, r⟩
+  rw [hx] at hd h
+  rcases r with e | u
+  · exact hd
+  · cases u; exact absurd rfl h
+
+theorem stepBase_wok (dec : Bytes → Bool) (s : Sys) (op : Op) (hwf : SysWF s) (h : WOk s)
+    (hop : op ≠ .close) : WOk (stepBase dec s op).1 := by
+  obtain ⟨ha, hc⟩ := h
+  cases op with
+  | close => exact absurd rfl hop
+  | write p =>
+    obtain ⟨_, _, hd⟩ := writeMessage_spec s.w p hwf.1
+    have hinw : (s.w.writeMessage p).2 = .ok () → (s.w.writeMessage p).1.inW = true := by
+      unfold Chan.writeMessage
+      rcases s.w.writeDelimited p with ⟨c1, r⟩
+      rcases r with e | u
+      · intro hh; cases hh
+      · intro _; rfl
+    have hsame : (s.w.writeMessage p).2 ≠ .ok () → (s.w.writeMessage p).1.inW = s.w.inW :=
+      writeMessage_inW_err s.w p
+    simp only [stepBase]
+    rcases hr : s.w.writeMessage p with ⟨w1, r1⟩
+    rw [hr] at hd hinw hsame
+    simp only at hd hinw hsame
+    rcases r1 with e | u
+    · refine ⟨?_, hc⟩
+      intro hne
+      rcases hd with ⟨h1, _⟩ | ⟨_, h2⟩
+      · cases h1
+      · rw [hsame (by simp)]; exact ha (by rw [← h2]; exact hne)
+    · exact ⟨fun _ => hinw rfl, hc⟩
+  | flush sched =>
+    have hwfw : ChanWF { s.w with rdW := true } := wf_flag hwf.1 rfl rfl
+    have harm : (Chan.writable { s.w with rdW := true } sched).1.back.data ≠ [] →
+        (Chan.writable { s.w with rdW := true } sched).1.inW = true := by
+      unfold Chan.writable
+      split
+      · exact ha
+      · next hcnd =>
+        have : s.w.inW = true := by
+          simp only [Bool.not_eq_true', Bool.and_eq_false_iff, not_or, Bool.not_eq_false] at hcnd
+          exact hcnd.1
+        exact writableLoop_armed sched _ [] 0 hwfw this
+    simp only [stepBase]
+    rcases hr : Chan.writable { s.w with rdW := true } sched with ⟨w1, acc, r1⟩
+    rw [hr] at harm
+    rcases r1 with e | n <;> exact ⟨harm, hc⟩
+  | raw bs => exact ⟨ha, hc⟩
+  | deliver k => exact ⟨ha, hc⟩
+  | readable =>
+    simp only [stepBase]
+    rcases Chan.readable { s.r with rdR := true } s.rq s.closed with ⟨r1, rq1, o⟩
+    rcases o with e | n <;> exact ⟨ha, hc⟩
+  | read =>
+    simp only [stepBase]
+    rcases s.r.readMessage dec with ⟨r1, o⟩
+    rcases o with e | m <;> exact ⟨ha, hc⟩
+  | drain k => exact ⟨ha, hc⟩
+  | extract => simp only [stepBase]; exact ⟨ha, hc⟩
+
+theorem fairRound_wok (dec : Bytes → Bool) (s : Sys) (hwf : SysWF s) (h : WOk s) :
+    WOk (fairRound dec s).1 := by
+  have s1 := stepBase_sysStep dec s (.flush [usizeMax]) hwf
+  have w1 := stepBase_wok dec s (.flush [usizeMax]) hwf h (by simp)
+  have s2 := stepBase_sysStep dec _ (.deliver rqCap) (s1.wf hwf)
+  have w2 := stepBase_wok dec _ (.deliver rqCap) (s1.wf hwf) w1 (by simp)
+  have w3 := stepBase_wok dec _ .readable (s2.wf (s1.wf hwf)) w2 (by simp)
+  unfold fairRound
+  exact w3
+
+theorem drainLoop_wok (dec : Bytes → Bool) (fuel quiet : Nat) (s : Sys) (acc : List Bytes) (e : Err)
+    (hwf : SysWF s) (h : WOk s) : WOk (drainLoop dec fuel quiet s acc e).1 := by
+  induction fuel generalizing quiet s acc e with
+  | zero => exact h
+  | succ f ih =>
+    have h1 := fairRound_wok dec s hwf h
+    have hs1 := (fairRound_sysStep dec s hwf).wf hwf
+    unfold drainLoop
+    rcases hr : fairRound dec s with ⟨s1, ms, e1⟩
+    rw [hr] at h1 hs1
+    simp only []
+    split
+    · split
+      · exact h1
+      · exact ih _ _ _ _ hs1 h1
+    · exact ih _ _ _ _ hs1 h1
+
+theorem step_wok (dec : Bytes → Bool) (s : Sys) (op : Op) (hwf : SysWF s) (h : WOk s)
+    (hop : op ≠ .close) : WOk (step dec s op).1 := by
+  unfold step
+  split
+  · exact drainLoop_wok dec _ 0 s [] .nothingRead hwf h
+  · exact stepBase_wok dec s _ hwf h hop
+
+/-- invariant of every state reached from a fresh pair with ceiling `M` -/
+structure Reach (dec : Bytes → Bool) (M : Nat) (s : Sys) (pend : List Bytes) : Prop where
+  fifo : Fifo dec s pend
+  fitsM : ∀ p ∈ pend, p.length + delim ≤ M
+  wok : WOk s
+  wmax : s.w.max = M
+  rmax : s.r.max = M
+  wcap : s.w.back.cap ≤ M
+
+theorem written_fits (dec : Bytes → Bool) (M : Nat) (s : Sys) (pend : List Bytes) (op : Op)
+    (h : Reach dec M s pend) : ∀ q ∈ writtenOf op (step dec s op).2, q.length + delim ≤ M := by
+  cases op with
+  | write p =>
+    have hiff := (writeMessage_iff s.w p h.fifo.wf.1 (by rw [h.wmax]; exact h.wcap)).1
+    show ∀ q ∈ writtenOf (.write p) (stepBase dec s (.write p)).2, _
+    simp only [stepBase]
+    rcases hr : s.w.writeMessage p with ⟨w1, r1⟩
+    rw [hr] at hiff
+    rcases r1 with e | u
+    · simp [writtenOf]
+    · simp only [writtenOf, List.mem_singleton]
+      intro q hq; subst hq
+      have := hiff.mp rfl
+      rw [h.wmax] at this; omega
+  | flush _ => simp [writtenOf]
+  | raw _ => simp [writtenOf]
+  | deliver _ => simp [writtenOf]
+  | readable => simp [writtenOf]
+  | read => simp [writtenOf]
+  | close => simp [writtenOf]
+  | extract => simp [writtenOf]
+  | drain _ => simp [writtenOf]
+
+theorem step_reach (dec : Bytes → Bool) (M : Nat) (s : Sys) (op : Op) (pend : List Bytes)
+    (h : Reach dec M s pend) (hraw : isRaw op = false) (hcl : op ≠ .close)
+    (hop : ∀ p, op = .write p → Good dec p) :
+    ∃ pend', Reach dec M (step dec s op).1 pend' ∧
+      pend ++ writtenOf op (step dec s op).2 = deliveredOf (step dec s op).2 ++ pend' := by
+  obtain ⟨pend', hf, he⟩ := step_fifo dec s op pend h.fifo hraw hop
+  have hs := step_sysStep dec s op h.fifo.wf
+  have hw := step_wok dec s op h.fifo.wf h.wok hcl
+  have hwf := written_fits dec M s pend op h
+  refine ⟨pend', ⟨hf, ?_, hw, hs.w.max_eq.trans h.wmax, hs.r.max_eq.trans h.rmax, ?_⟩, he⟩
+  · intro q hq
+    have : q ∈ pend ++ writtenOf op (step dec s op).2 := by
+      rw [he]; exact List.mem_append_right _ hq
+    rcases List.mem_append.mp this with hq | hq
+    · exact h.fitsM q hq
+    · exact hwf q hq
+  · have := hs.w.backCap
+    rw [h.wmax] at this
+    have := h.wcap
+    omega
+
+theorem run_reach (dec : Bytes → Bool) (M : Nat) (s : Sys) (ops : List Op) (pend : List Bytes)
+    (h : Reach dec M s pend) (hraw : ∀ op ∈ ops, isRaw op = false) (hcl : Op.close ∉ ops)
+    (hop : ∀ p, Op.write p ∈ ops → Good dec p) :
+    ∃ pend', Reach dec M (run dec s ops).1 pend' ∧
+      pend ++ written ops (run dec s ops).2 = delivered (run dec s ops).2 ++ pend' := by
+  induction ops generalizing s pend with
+  | nil => exact ⟨pend, h, by simp [run, written, delivered]⟩
+  | cons op ops ih =>
+    obtain ⟨p1, f1, e1⟩ := step_reach dec M s op pend h (hraw op (List.mem_cons_self ..))
+      (fun hc => hcl (hc ▸ List.mem_cons_self ..))
+      (fun p hp => hop p (hp ▸ List.mem_cons_self ..))
+    obtain ⟨p2, f2, e2⟩ := ih _ p1 f1 (fun o ho => hraw o (List.mem_cons_of_mem _ ho))
+      (fun hc => hcl (List.mem_cons_of_mem _ hc))
+      (fun p hp => hop p (List.mem_cons_of_mem _ hp))
+    refine ⟨p2, by simpa [run] using f2, ?_⟩
+    simp only [run, written, delivered]
+    rw [← List.append_assoc, e1, List.append_assoc, e2, List.append_assoc]
+
+theorem reach_new (dec : Bytes → Bool) (a b : Nat) : Reach dec (max b a) (Sys.new a b) [] := by
+  refine ⟨fifo_new dec a b, ?_, ⟨?_, rfl⟩, rfl, rfl, ?_⟩
+  · intro p hp; cases hp
+  · intro h; exact absurd rfl h
+  · show a ≤ max b a
+    omega
+
+theorem reach_live (dec : Bytes → Bool) (M : Nat) (s : Sys) (pend : List Bytes)
+    (h : Reach dec M s pend) (hM : M ≤ usizeMax) : Live dec s pend := by
+  refine ⟨h.fifo, ?_, h.wok.1, h.wok.2, ?_⟩
+  · intro p hp; rw [h.rmax]; exact h.fitsM p hp
+  · obtain ⟨a, b, c⟩ := h.fifo.wf.1.2
+    have := h.wcap
+    omega
+
+
 end Sozu.Channel
